@@ -12,7 +12,7 @@ from .interp import (Ctx, Frame, PyRaise, _Return, _Break, _Continue, PathEnd, I
                      FP, RNE)
 from .values import (S, VOpt, VQty, VTime, VDelta, VEnum, SEnum, VRec, VRef, HObj, HList, HDict,
                      HSet, SymSeq, SymSet, SymMap, FuncRef, ClassRef, ModRef, ExtRef,
-                     BoundBuiltin, Opaque, Unsupported, fresh_name, zreal, float_literal)
+                     BoundBuiltin, Opaque, Unsupported, fresh_name, zreal, float_literal, GhostSeq)
 
 
 class SpecFn:
@@ -974,6 +974,8 @@ class Interp:
             return models.call_ext(self, f, args, kwargs)
         if isinstance(f, models.ModelCallable):
             return f.call(self, args, kwargs)
+        if isinstance(f, GhostSeq):
+            return f.at(zof(self.unwrap(args[0]), "int"))
         raise Unsupported(f"call of {f!r}")
 
     def call_method(self, obj, name, args, kwargs):
